@@ -50,6 +50,10 @@ def handle (w : St) : List String → Option (St × String)
     match l.toInt? with
     | some l => let r := queueView l w.sys; ({ sys := r.1 }, showOut r.2)
     | none => (w, "bad-op")
+  | ["mon.queueview_fault", k] => some <|
+    match k.toNat? with
+    | some k => ({ sys := queueViewFault k w.sys }, "failed")
+    | none => (w, "bad-op")
   | ["mon.queueview_old", l] => some <|
     match l.toInt? with
     | some l => let r := queueViewOld l w.sys; ({ sys := r.1 }, showOut r.2)
